@@ -96,8 +96,13 @@ def sub_line(rng, name):
     return [name, rng.choice([None, "D"]), rng.choice([None, "GSpline.EFF"]), inner]
 
 
+def fixflag(rng):
+    """the 'fix' column: AmpGen writes 0 / 1 / 2 / 3, the grammar takes any SIGNED_NUMBER"""
+    return rng.choice(["0", "0", "2", "1"]) if rng.random() < 0.9 else rng.choice(["2.0", "0.0", "1e0", "+1", "-1", "3", "0.5", "-0"])
+
+
 def cplx(rng):
-    return [rng.choice(["0", "0", "2", "1"]), rng.choice(NUMS), rng.choice(["0", "0.0205762", "0.1"])]
+    return [fixflag(rng), rng.choice(NUMS), rng.choice(["0", "0.0205762", "0.1"])]
 
 
 def rand_optfile(rng, with_pars=True, fcs=None, extra_families=False):
@@ -139,7 +144,7 @@ def rand_optfile(rng, with_pars=True, fcs=None, extra_families=False):
     if with_pars:
         for _ in range(rng.randint(0, 6)):
             lines.append(["var", rng.choice(["D0_radius", "sA", "s0_prod", "s0_scatt", "sA_0", "IS_p1_pipi", "f_scatt0", "myPar::x"]),
-                          rng.choice(["0", "2", "1"]), rng.choice(NUMS), rng.choice(["0", "0.01"])])
+                          fixflag(rng), rng.choice(NUMS), rng.choice(["0", "0.01"])])
         for _ in range(rng.randint(0, 4)):
             lines.append(["const", rng.choice(["a(1)(1260)+::Spline::Min", "a(1)(1260)+::Spline::Max", "a(1)(1260)+::Spline::N", "someConst"]),
                           rng.choice(["0.18412", "1.9", "40", "3"])])
